@@ -88,7 +88,9 @@ class Runner(provider.Service, default=setup.Runner.default, path=setup.Runner.p
             lower: Ordinal value as the lower bound for the ETL cycle.
             upper:  Ordinal value as the upper bound for the ETL cycle.
         """
-        composition = self._build(lower or self._instance.tag.training.ordinal, upper, self._instance.project.pipeline)
+        if lower is None:
+            lower = self._instance.tag.training.ordinal
+        composition = self._build(lower, upper, self._instance.project.pipeline)
         self._exec(
             composition.train, self._instance.state(composition.persistent, self._instance.tag.training.trigger())
         )
